@@ -185,3 +185,7 @@ def distribution(cases, impl, model):
         if il.startswith("[[]"):
             d["empty_iteration"] += 1
     return d
+
+
+def tie_covered(case):
+    return case in _info
